@@ -607,6 +607,7 @@ type vgoRouteCase struct {
 	Owner      string `json:"owner"`  // "" = nobody, "self", or peer name
 	Addr       bool   `json:"addr"`
 	Stream     bool   `json:"stream"`
+	OtherPair  bool   `json:"otherpair"` // peer state for the owner exists, but only with streams of another shard pair
 	Memberlist bool   `json:"memberlist"`
 }
 
@@ -657,6 +658,17 @@ func vgoRunRoute(rc vgoRouteCase) map[string]interface{} {
 			recvShutdown: map[peerStreamKey]channel.ShutdownOnce{},
 		}
 	}
+	srvO, cliO := &vgoCapSrv{}, &vgoCapCli{}
+	if rc.OtherPair && !rc.Stream && sm.intraMgr != nil {
+		tgt2 := history.ClusterShardID{ClusterID: 2, ShardID: 2}
+		src2 := history.ClusterShardID{ClusterID: 1, ShardID: 2}
+		key := peerStreamKey{targetShard: tgt2, sourceShard: src2}
+		sm.intraMgr.peers["b"] = &peerState{
+			senders:      map[peerStreamKey]*intraProxyStreamSender{key: {logger: log.NewNoopLogger(), sourceStreamServer: srvO, targetShardID: tgt2, sourceShardID: src2}},
+			receivers:    map[peerStreamKey]*intraProxyStreamReceiver{key: {logger: log.NewNoopLogger(), streamClient: cliO, targetShardID: tgt2, sourceShardID: src2}},
+			recvShutdown: map[peerStreamKey]channel.ShutdownOnce{},
+		}
+	}
 	sd := channel.NewShutdownOnce()
 	var res bool
 	pan := ""
@@ -677,9 +689,9 @@ func vgoRunRoute(rc vgoRouteCase) map[string]interface{} {
 		}
 	}()
 	nLocal := len(localMsg) + len(localAck)
-	nRemote := srv.got + cli.got
+	nRemote := srv.got + cli.got + srvO.got + cliO.got // a hand-off on another pair's stream is a wrong delivery too
 	return map[string]interface{}{"ev": "Route", "id": rc.ID, "kind": rc.Kind, "haveLocal": rc.HaveLocal, "closed": rc.Closed, "owner": rc.Owner, "addr": rc.Addr,
-		"stream": rc.Stream, "memberlist": rc.Memberlist, "result": res, "local": nLocal, "remote": nRemote, "panic": pan}
+		"stream": rc.Stream, "otherpair": rc.OtherPair, "memberlist": rc.Memberlist, "result": res, "local": nLocal, "remote": nRemote, "panic": pan}
 }
 
 func TestVerifGossipSchedules(t *testing.T) {
